@@ -263,7 +263,28 @@ def same_cmp(a, c1, c2, facts):
         t = sp.sympify(n1[2])
         return bool(t.is_number and ((n1[0] == 'lt' and t > 0) or (n1[0] == 'le' and t >= 0)))
     if n1[0] != n2[0]:
-        return False
+        # different predicates over the same operands agree when the facts exclude the orderings on which they differ
+        REG = {'lt': {'<'}, 'le': {'<', '='}, 'gt': {'>'}, 'ge': {'>', '='}, 'eq': {'='}, 'ne': {'<', '>'}}
+        p1, p2 = c1.pred, c2.pred
+        x1, y1, x2, y2 = c1.a, c1.b, c2.a, c2.b
+        if getattr(c1, 'fp', False) or getattr(c2, 'fp', False) or p1 not in REG or p2 not in REG:
+            return False
+        if same(a, x1, y2, facts) and same(a, y1, x2, facts):
+            p2 = {'lt': 'gt', 'gt': 'lt', 'le': 'ge', 'ge': 'le'}.get(p2, p2)
+        elif not (same(a, x1, x2, facts) and same(a, y1, y2, facts)):
+            return False
+        try:
+            d = sp.expand(sp.sympify(x1) - sp.sympify(y1))
+            for reg in REG[p1] ^ REG[p2]:
+                if reg == '<' and not a.prove_ge0(d, facts):
+                    return False
+                if reg == '>' and not a.prove_ge0(-d, facts):
+                    return False
+                if reg == '=' and not (a.prove_ge0(d - 1, facts) or a.prove_ge0(-d - 1, facts)):
+                    return False
+            return True
+        except Exception:
+            return False
     if same(a, n1[1], n2[1], facts) and same(a, n1[2], n2[2], facts):
         return True
     if n1[0] in ('eq', 'ne') and same(a, n1[1], n2[2], facts) and same(a, n1[2], n2[1], facts):
@@ -385,7 +406,10 @@ class Matcher:
             if T is None:
                 raise Diff('shape', 'trip count of the loop at %s is not computable' % l.header.name)
             if not a.prove_eq(T, hi - lo, facts):
-                # an empty range on both sides?
+                dT = sp.expand(sp.sympify(T) - (hi - lo))
+                if not dT.is_number:
+                    # not a constant number of passes too many / too few: a loop of another shape (unrolled, split, ...)
+                    raise Diff('shape', 'loop %s runs %s times, the reference runs over [%s, %s) = %s times' % (var, T, lo, hi, sp.expand(hi - lo)))
                 raise Diff('point', 'loop %s runs %s times, the reference runs over [%s, %s) = %s times' % (var, T, lo, hi, sp.expand(hi - lo)),
                            self.a.fn.loc(l.header.term))
             sub2 = dict(sub)
@@ -422,11 +446,24 @@ class Matcher:
                 if not ok:
                     raise last
                 self.nstmt += len(ifolds)
+                # behind the loop: a carried value that is only ever kept or replaced by something >= its start is >= its start
+                for k in ifolds:
+                    try:
+                        _, init, nxt, P = a.folds[k]
+                        i_init = a.resolve(init, l.parent)
+                        i_next = a.resolve(nxt, l)
+                        arms = [i_next]
+                        for _r in range(4):
+                            arms = [y for x in arms for y in ((x.args[3], x.args[4]) if getattr(x, 'func', None) == sel else (x,))]
+                        if all(x == P or x == k or a.prove_ge0(sp.expand(x - i_init), f2) for x in arms) and not any(getattr(x, 'func', None) == sel for x in arms):
+                            facts.append(self.N(k) - self.N(i_init))
+                    except Exception:
+                        pass
             self.seq(body, sbody, f2, sub2)
             return
         if ti[0] == 'store':
-            _, base, idx, val, _ = ti
-            _, sbase, sidx, sval, _ = ts
+            _, base, idx, val = ti[:4]
+            _, sbase, sidx, sval = ts[:4]
             sidx = sp.expand(sidx.subs(sub))
             sval = self.N(sval.subs(sub) if isinstance(sval, sp.Basic) else sp.sympify(sval))
             ival = self.N(val)
